@@ -34,6 +34,7 @@ Definition real_scalars : scalar_ops := {|
   f_of_be := fr_of_be |}.
 
 Definition g1_identity_enc : bytes := 192 :: repeat 0 47%nat.
+Definition g2_identity_enc : bytes := 192 :: repeat 0 95%nat.
 
 Section Real.
   (* primitive server calls; points travel as canonical compressed encodings *)
@@ -56,7 +57,7 @@ Section Real.
     g1_eqb := bytes_eqb;
     g1_enc := fun p => p;
     g1_dec := fun b => if p_g1dec b then Some b else None;
-    G2 := bytes;
+    G2 := bytes; g2_zero := g2_identity_enc; g2_eqb := bytes_eqb;
     g2_mul_gen := fun (s : F real_scalars) => p_g2mulgen (be_bytes_nat 32 s);
     g2_add := p_g2add;
     g2_enc := fun p => p;
